@@ -21,6 +21,12 @@ CLAIMED = {
     'C09': ('5-C09', 'Byte-level name identities, prefix test and canonical ordering are decided as formula equivalences over all '
             'component types/values in the bound; URI round trips are decided by solver-driven enumeration of every byte that '
             'reaches string formatting. Bounded.'),
+    'C03': ('5-C03', 'Scenarios of Interests and external events run on the real asyncio machinery with a solver-controlled '
+            'clock: every relative order of packet arrival, validator completion, deadline expiry and cancellation inside the '
+            'bounds is one decided path; outcomes are compared with a reference simulator of the statement. Bounded.'),
+    'C05': ('5-C05', 'Consumer and producer decision tables of the statement are checked for every validator verdict, every '
+            'latency/arrival/lifetime relation (solver-decided) and every single-byte corruption of the parameters digest '
+            '(symbolic position and value through the ideal hash). Bounded.'),
 }
 NOT_YET = 'check not built yet in this revision of /verif (planned in DESIGN.md section 5)'
 NA = {
